@@ -493,6 +493,12 @@ class OpTableC(FragContract):
         res = st.env['_result']
         return Outcome(ok, res, g['last_end'], extra)
 
+    def bounded(self, cx):
+        """stand-in when the fragment leaves the executor's subset: the brute-force reference of the statement against the real
+        generated parser (labelled bounded, never counted as proved)"""
+        from . import optable_ref
+        return optable_ref.bounded(5)
+
     def mustfail(self, cx, ex, st, oc):
         g = st.ghost
         yield 'P-fringe-off-by-one', Implies(g['nparsed'] >= 1, Select(g['T']['hi'], 0) == g['ncommit'] + 1)
